@@ -38,6 +38,34 @@ if os.path.isdir(_fd):
 
 NOT_YET = "check not built yet in this revision (planned in DESIGN.md section 4)"
 
+def normalise_fixed(entry):
+    """-> 'fixed: property=<id> <commit on /repo main> <subject> - <what failed>'.  The commit is looked up on
+    /repo main by the quoted 'fix: ...' subject, or through a (branch) commit id mentioned in the entry."""
+    import re, subprocess
+    if isinstance(entry, dict):
+        what = re.sub(r"^fixed: property=C\d+\s*", "", entry.get("what", ""))
+        entry = "fixed: property=%s '%s' - %s" % (entry.get("property"), entry.get("commit", "").split(": ", 1)[-1], what)
+    m = re.match(r"fixed: property=(C\d+)\s+(.*)$", entry, re.S)
+    if not m:
+        return entry
+    pid, rest = m.group(1), m.group(2)
+    log = [l.split(" ", 1) for l in subprocess.run(["git", "-C", "/repo", "log", "--format=%h %s", "-n", "300"],
+                                                   stdout=subprocess.PIPE).stdout.decode().splitlines()]
+    bysubj = {s_.strip(): h for h, s_ in log}
+    subj = re.search(r"'(fix: [^']+)'", rest)
+    if subj and subj.group(1).strip() in bysubj:
+        tail = (rest[:rest.index(subj.group(0))] + rest[rest.index(subj.group(0)) + len(subj.group(0)):])
+        tail = re.sub(r"^(branch\s+)?verif-[a-z0-9-]+\s*(commit)?\s*([0-9a-f]{7,40})?\s*", "", tail).lstrip(" -")
+        return "fixed: property=%s %s %s - %s" % (pid, bysubj[subj.group(1).strip()], subj.group(1), tail)
+    for h in re.findall(r"\b[0-9a-f]{7,40}\b", rest[:120]):
+        cp = subprocess.run(["git", "-C", "/repo", "show", "-s", "--format=%s", h], stdout=subprocess.PIPE, stderr=subprocess.DEVNULL)
+        s_ = cp.stdout.decode().strip()
+        if cp.returncode == 0 and s_ in bysubj:
+            tail = re.sub(r"^(branch\s+)?(verif-[a-z0-9-]+\s*)?(commit\s*)?", "", rest).replace(h, "", 1).lstrip(" -")
+            return "fixed: property=%s %s %s - %s" % (pid, bysubj[s_], s_, tail)
+    return entry
+
+
 def main():
     checks = []
     engines = []
@@ -95,6 +123,7 @@ def main():
             j = json.load(open(os.path.join(kd, f)))
             findings += j.get("findings", [])
             fixed += j.get("fixed", [])
+    fixed = [normalise_fixed(f) for f in fixed]
     json.dump({"comment": "generated by tools/mkmanifest.py from known_findings.d/*.json; a listed finding makes the check "
                           "print KNOWN-FINDING and exit 0 for exactly that key; 'fixed' entries suppress nothing",
                "findings": findings, "fixed": fixed}, open(os.path.join(VERIF, "known_findings.json"), "w"), indent=1)
